@@ -95,6 +95,22 @@ def run_case(case, ctx):
     fx = np.array([float(v) for v in fx_exact])
     dcoefs = poly_deriv(coefs, n)
     args = (list(fx), list(x)) if case['as_list'] else (fx.copy(), x.copy())
+    view = ['none', 'none', 'strided', 'reversed_base', 'column'][case['seed'] % 5] if not case['as_list'] else 'none'
+    if view != 'none' and case['kind'] != 'integer_grid':
+        # the same numbers as non-contiguous 1-D views (every second element of a longer array, a reversed base array, a column
+        # of a table)
+        def as_view(a):
+            if view == 'strided':
+                big = np.full(2 * len(a), 1e300)
+                big[::2] = a
+                return big[::2]
+            if view == 'reversed_base':
+                return a[::-1].copy()[::-1]
+            tab = np.full((len(a), 3), -7.0)
+            tab[:, 1] = a
+            return tab[:, 1]
+        args = (as_view(fx), as_view(x))
+        ctx.count('non_contiguous_views:' + view)
     if case['kind'] == 'integer_grid':
         ctx.count('integer_grid_cases')
         xi, fi = x.astype(np.int64), np.array([int(v) for v in fx_exact], dtype=np.int64)
@@ -118,7 +134,7 @@ def run_case(case, ctx):
     except Exception as exc:
         ctx.reject('raised', observed=repr(exc))
         return
-    if not case['as_list'] and case['kind'] != 'integer_grid' and (args[0].tobytes() != fx.tobytes() or args[1].tobytes() != x.tobytes()):
+    if not case['as_list'] and case['kind'] != 'integer_grid' and (np.ascontiguousarray(args[0]).tobytes() != fx.tobytes() or np.ascontiguousarray(args[1]).tobytes() != x.tobytes()):
         ctx.reject('input_modified')
         return
     out = np.asarray(out)
